@@ -369,9 +369,12 @@ fn phase_bgp_systematic(ctx: &mut Ctx, sweep_rate: f64, sample: Option<u64>) {
     if sample.is_none() {
         // complete for the structured classes; complete for the sweeps too when sweep_rate == 1
         ctx.rep.count(if finished { "systematic:finished" } else { "systematic:cut-by-budget" });
-        if complete {
-            ctx.rep.exhaustive = Some(finished);
+        if complete && finished {
+            ctx.rep.count("systematic:complete-space-visited");
         }
+        // the property's domain (all byte strings) is never exhausted: only the
+        // enumerated mutation space can be complete, which the counters above say
+        ctx.rep.exhaustive = Some(false);
     }
 }
 
